@@ -1018,6 +1018,7 @@ def short(path):
 # --------------------------------------------------------------------------------------------
 
 DESCRIBE_DEPTH = 100
+MULTI_ALTS = 24     # alternatives kept for a local assigned on several paths
 
 
 def describe(prog, body, x, depth=0, seen=None):
@@ -1116,7 +1117,7 @@ def _describe_local(prog, body, l, depth, seen):
     if len(ds) == 0:
         return ("local", l, body.local_name(l))
     if len(ds) > 1:
-        return ("multi", [_describe_def(prog, body, d, depth + 1, seen) for d in ds[:6]], body.local_name(l), l, tuple(d[0] for d in ds[:6]))
+        return ("multi", [_describe_def(prog, body, d, depth + 1, seen) for d in ds[:MULTI_ALTS]], body.local_name(l), l, tuple(d[0] for d in ds[:MULTI_ALTS]))
     return _describe_def(prog, body, ds[0], depth + 1, seen)
 
 
